@@ -6,7 +6,7 @@
    leveldb, pebble, memorydb, rawdb table since the F1 repair) -- StateProcessor.Process. *)
 From Coq Require Import List NArith Bool.
 From GQ Require Import Lib.Key Lib.SMap Generated.C01Params Model.C01 Proofs.C01_View Proofs.C01_Sim
-     Proofs.C01_Steps Proofs.C01_Ledger Proofs.C01_Den Proofs.C01_Worker Proofs.C01_Worker2 Proofs.C01 Proofs.C01_Worker3.
+     Proofs.C01_Steps Proofs.C01_Ledger Proofs.C01_Den Proofs.C01_Worker Proofs.C01_Worker2 Proofs.C01 Proofs.C01_Worker3 Proofs.C01_Pool.
 Import ListNotations.
 Local Open Scope N_scope.
 
@@ -191,6 +191,57 @@ Theorem worker_block_spends_once : forall c (l : ledger) txs,
 Proof. exact worker_block_spends_once_lemma. Qed.
 Print Assumptions worker_block_spends_once.
 
+(* ---- the pool's senders cache in the authorisation path (added after the third round of blind changes).
+   StateProcessor.Process asks pool.senders for every Qi transaction of a block and calls ProcessQiTx with
+   checkSig=false on a hit: a cache entry stands for "Schnorr/MuSig2 signature verified". *)
+
+(* The cache is written only for admitted transactions, and the pool (addQiTxs / the re-injection after a
+   reorganisation; output and fee rules abstract: any outs_ok) admits only transactions that pass
+   ValidateQiTxInputs and whose signature bit is set: after ANY history of gossip phases -- each against its own
+   head and ledger, any mixture of valid and forged transactions, copies, orders -- every cached hash is the
+   hash of a seen transaction that is signed by the keys it carries. *)
+Theorem qi_pool_cache_only_verified : forall outs_ok (hs : list (ctx * ledger * list tx)),
+  forall h, In h (gossip_history outs_ok [] hs) ->
+  exists t, In t (concat (map snd hs)) /\ t_hash t = h /\ t_sigok t = true.
+Proof. exact cache_only_verified. Qed.
+Print Assumptions qi_pool_cache_only_verified.
+
+(* ... and each admission also established ownership of every input against the ledger of that phase. *)
+Theorem qi_pool_admission_checks_owner_and_signature : forall outs_ok c l t,
+  pool_admit outs_ok c l t = true -> validate_inputs c l t = true /\ t_sigok t = true.
+Proof. exact pool_admit_facts. Qed.
+Print Assumptions qi_pool_admission_checks_owner_and_signature.
+
+(* A block processed behind a sound cache (checkSig derived from it as Process does): every transaction of an
+   accepted block has inputs and is signed by the keys it carries -- or shares its hash with a different,
+   signed transaction the pool saw (a collision of tx.Hash(), which covers the signature). *)
+Theorem qi_authorised_behind_pool_cache : forall seen cache (l : ledger) c txs rs l',
+  cache_sound seen cache -> run_block_via_pool cache l c txs = (rs, true, l') ->
+  Forall (fun t => t_ins t <> [] /\ signed_or_collision seen t) txs.
+Proof. exact via_pool_authorised. Qed.
+Print Assumptions qi_authorised_behind_pool_cache.
+
+(* End to end: whatever the pool saw before. *)
+Theorem qi_authorised_whatever_the_pool_saw : forall outs_ok hs (l : ledger) c txs rs l',
+  run_block_via_pool (gossip_history outs_ok [] hs) l c txs = (rs, true, l') ->
+  Forall (fun t => t_ins t <> [] /\ signed_or_collision (concat (map snd hs)) t) txs.
+Proof. exact authorised_whatever_pool_saw. Qed.
+Print Assumptions qi_authorised_whatever_the_pool_saw.
+
+(* The hypothesis cache_sound is necessary, not decoration: the same forged transaction (owner's public key,
+   foreign signature) is rejected behind an empty cache and behind the cache any gossip history produces, and
+   accepted -- the ledger changes -- behind a cache that holds its hash. *)
+Theorem qi_unsound_cache_entry_admits_forged_refuted :
+  run_block_via_pool [] w_ledger w_ctx [p_forged] = ([], false, w_ledger)
+  /\ gossip_history (fun _ => true) [] [(w_ctx, w_ledger, [p_forged; x_tx1])] = [t_hash x_tx1]
+  /\ run_block_via_pool [t_hash x_tx1] w_ledger w_ctx [p_forged] = ([], false, w_ledger)
+  /\ (exists rs l', run_block_via_pool [t_hash x_tx1] w_ledger w_ctx [x_tx1] = (rs, true, l')
+                    /\ map t_checksig (map (via_cache [t_hash x_tx1]) [x_tx1]) = [false])
+  /\ exists rs l', run_block_via_pool [t_hash p_forged] w_ledger w_ctx [p_forged] = (rs, true, l')
+                   /\ l' <> w_ledger.
+Proof. exact forged_behind_cache. Qed.
+Print Assumptions qi_unsound_cache_entry_admits_forged_refuted.
+
 (* ---- non-vacuity: concrete accepted / rejected instances of the hypotheses above *)
 
 (* an accepted one-input transaction: 1000 -> 500 + 100, fee 400 *)
@@ -244,4 +295,17 @@ Example qi_repeated_key_nonvacuous :
 Proof.
   split; [vm_compute; reflexivity|]. split; [vm_compute; reflexivity|]. split; [vm_compute; reflexivity|].
   split; [|vm_compute; reflexivity]. eexists; eexists. split; [vm_compute; reflexivity|reflexivity].
+Qed.
+
+(* the pool theorems' hypotheses are met by a real history: forged and valid twin gossiped, valid one cached,
+   block with the valid one accepted behind that cache *)
+Example qi_pool_cache_nonvacuous :
+  pool_admit (fun _ => true) w_ctx w_ledger x_tx1 = true /\ pool_admit (fun _ => true) w_ctx w_ledger p_forged = false
+  /\ cache_sound [p_forged; x_tx1] (gossip_history (fun _ => true) [] [(w_ctx, w_ledger, [p_forged; x_tx1])])
+  /\ exists rs l', run_block_via_pool (gossip_history (fun _ => true) [] [(w_ctx, w_ledger, [p_forged; x_tx1])])
+                                      w_ledger w_ctx [x_tx1] = (rs, true, l').
+Proof.
+  split; [vm_compute; reflexivity|]. split; [vm_compute; reflexivity|].
+  split; [apply (cache_only_verified (fun _ => true) [(w_ctx, w_ledger, [p_forged; x_tx1])])|].
+  eexists; eexists. vm_compute. reflexivity.
 Qed.
